@@ -203,7 +203,7 @@ func init() {
 						nb := (sd.n + int(sd.blk) - 1) / int(sd.blk)
 						for blk := 0; blk < nb; blk++ {
 							for _, class := range []string{"bitflip", "bytesub", "swap", "pair16", "splice"} {
-								emit(ckCase{P: Params{sd.t, sd.e, sd.blk, 2, ck, -1, false}, Shape: sd.shape, Len: sd.n, Jobs: j, Block: blk, Class: class})
+								emit(ckCase{P: Params{sd.t, sd.e, sd.blk, 2, ck, -1, false, false}, Shape: sd.shape, Len: sd.n, Jobs: j, Block: blk, Class: class})
 							}
 						}
 					}
